@@ -710,6 +710,22 @@ func init() {
 			want, wantErr := c12PhysicalPath(filepath.Join(root, a.Wd, a.Path))
 			scrub := func(x string) string { return strings.ReplaceAll(x, root, "$ROOT") }
 			res := map[string]any{"want": scrub(want), "want_err": wantErr != nil}
+			// the link table of the Lean model (Model/PathsSymlink.lean): every symbolic link at its physical location
+			// (Walk does not follow links) with what EvalSymlinks says about it
+			comps := func(p string) []string { return strings.Split(strings.TrimPrefix(filepath.Clean(p), "/"), "/") }
+			links := [][]any{}
+			filepath.Walk(root, func(p string, info os.FileInfo, err error) error {
+				if err == nil && info.Mode()&os.ModeSymlink != 0 {
+					if t, err := filepath.EvalSymlinks(p); err == nil {
+						links = append(links, []any{comps(p), comps(t)})
+					} else {
+						links = append(links, []any{comps(p), nil})
+					}
+				}
+				return nil
+			})
+			res["links"] = links
+			res["path"] = comps(filepath.Join(root, a.Wd, a.Path))
 			t, get := attrTree("develop.watch.path", a.Path)
 			m1, bad := c12Resolve(t, filepath.Join(root, a.Wd), nil)
 			if bad != nil {
@@ -718,6 +734,7 @@ func init() {
 			}
 			f, _ := get(m1).(string)
 			res["first"] = scrub(f)
+			res["first_raw"] = f
 			m2, bad := c12Resolve(core.DeepCopyVal(any(m1)).(map[string]any), filepath.Join(root, a.Wd), nil)
 			if bad != nil {
 				res["second_err"] = bad
@@ -727,12 +744,46 @@ func init() {
 			res["second"] = scrub(g)
 			return res
 		},
+		DriverOp: "c12.symres",
+		DriverArgs: func(args, real json.RawMessage) any {
+			var r struct {
+				Links json.RawMessage `json:"links"`
+				Path  json.RawMessage `json:"path"`
+			}
+			json.Unmarshal(real, &r)
+			return map[string]any{"links": r.Links, "path": r.Path}
+		},
 		Judge: func(args, real, drv json.RawMessage) *core.Verdict {
 			if v := core.CrashVerdict(real); v != nil {
 				return v
 			}
 			var a symlinkArgs
 			json.Unmarshal(args, &a)
+			// correspondence: the link-table model of ResolveSymbolicLink against the real function
+			{
+				var rr struct {
+					FirstRaw *string         `json:"first_raw"`
+					FirstErr json.RawMessage `json:"first_err"`
+					Path     []string        `json:"path"`
+					Bad      string          `json:"bad"`
+				}
+				var d struct {
+					Ok  []string `json:"ok"`
+					Err bool     `json:"err"`
+					Bad string   `json:"bad"`
+				}
+				if json.Unmarshal(real, &rr) == nil && rr.Bad == "" && rr.Path != nil && json.Unmarshal(drv, &d) == nil {
+					model := "/" + strings.Join(d.Ok, "/")
+					switch {
+					case d.Bad != "":
+						return core.Disagree("link-table model: " + d.Bad)
+					case d.Err != (rr.FirstRaw == nil):
+						return core.Disagree(fmt.Sprintf("Sym.resolveSym ≠ ResolveSymbolicLink: model err=%v, real %v %s", d.Err, rr.FirstRaw, rr.FirstErr))
+					case !d.Err && model != *rr.FirstRaw:
+						return core.Disagree(fmt.Sprintf("Sym.resolveSym ≠ ResolveSymbolicLink: model %s, real %s", model, *rr.FirstRaw))
+					}
+				}
+			}
 			var r struct {
 				First     *string         `json:"first"`
 				Second    *string         `json:"second"`
